@@ -187,7 +187,7 @@ func runSLIter(env *Env) {
 					_, ok := sl.Insert2(newItem(k), cmp, nil, buf, levelRand(op.Arg(1)), &sl.Stats)
 					evs = append(evs, churnEv{key: k, ins: true, ok: ok, call: call, ret: s.Stamp()})
 					s.EndOp()
-					env.Logf("%s ins(%d) -> %v", tp.Name, k, ok)
+					env.Logf("%s ins(%d) -> %v [%d..%d]", tp.Name, k, ok, call, s.Seq())
 				case "del", "delcur":
 					k := churnKey(op.Arg(0))
 					if op.K == "delcur" {
@@ -205,7 +205,7 @@ func runSLIter(env *Env) {
 					ok := doDel(k, buf)
 					evs = append(evs, churnEv{key: k, ins: false, ok: ok, call: call, ret: s.Stamp()})
 					s.EndOp()
-					env.Logf("%s del(%d) -> %v", tp.Name, k, ok)
+					env.Logf("%s del(%d) -> %v [%d..%d]", tp.Name, k, ok, call, s.Seq())
 				}
 			}
 		})
@@ -267,11 +267,11 @@ func runSLIter(env *Env) {
 				sc.end = s.Stamp()
 				s.EndOp()
 				it.Close()
-				var ks []int
+				var ks []string
 				for _, o := range sc.obs {
-					ks = append(ks, o.key)
+					ks = append(ks, fmt.Sprintf("%d@%d..%d", o.key, o.call, o.ret))
 				}
-				env.Logf("%s scan(start=%d steps=%d rint=%d rexp=%d pause=%d) -> %v", tp.Name, start, steps, rint, rexp, pause, ks)
+				env.Logf("%s scan(start=%d steps=%d rint=%d rexp=%d pause=%d) [%d..%d] -> %v", tp.Name, start, steps, rint, rexp, pause, sc.call, sc.end, ks)
 			}
 		})
 	}
@@ -365,7 +365,15 @@ func runSLIter(env *Env) {
 						// the re-insert lies between the two deliveries; the delete may have
 						// completed before the first delivery (an iterator may return an item
 						// that was present when the scan started and is unlinked under it)
-						if e.ins && e.call <= o.ret && p.call <= e.ret {
+						// the cursor may have reached the first of the two equal items as early
+						// as right after the delivery before it (an explicit Refresh moves it
+						// onto the successor of a deleted current item): the re-insert may lie
+						// anywhere between that delivery and the second of the equal ones
+						lo := sc.call
+						if i >= 2 {
+							lo = sc.obs[i-2].ret
+						}
+						if e.ins && e.call <= o.ret && lo <= e.ret {
 							insOK = true
 						}
 						if !e.ins && e.call <= o.ret && sc.call <= e.ret {
